@@ -113,7 +113,14 @@ pub fn ref_target(ty: &Type) -> Type {
 /// so `Self` is spelled `&'__a T` and every bound or predicate mentioning it is made higher-ranked
 /// (`for<'__a> &'__a T: Bound`), which is what the elided lifetime of the original impl means.
 pub fn expand_self_in_impl_generics(generics: &Generics, to: &Type) -> Generics {
-    let Type::Reference(r) = to else {
+    // `(&T)`, and `&T` handed in through a `macro_rules!` fragment, are references too
+    let mut inner = to;
+    while let Type::Group(syn::TypeGroup { elem, .. }) | Type::Paren(syn::TypeParen { elem, .. }) =
+        inner
+    {
+        inner = elem;
+    }
+    let Type::Reference(r) = inner else {
         return expand_self(generics, to);
     };
     if r.lifetime.is_some() {
@@ -156,8 +163,32 @@ pub fn expand_self_in_impl_generics(generics: &Generics, to: &Type) -> Generics 
             if let syn::WherePredicate::Type(p) = p {
                 let mut v = ContainsSelf(false);
                 v.visit_predicate_type(p);
-                if v.0 {
+                if !v.0 {
+                    continue;
+                }
+                let mut in_ty = ContainsSelf(false);
+                in_ty.visit_type(&p.bounded_ty);
+                if in_ty.0 || p.lifetimes.is_some() {
+                    // One binder for the whole predicate; binders of its bounds move into it (they cannot be nested).
                     add_lifetime(&mut p.lifetimes);
+                    for b in &mut p.bounds {
+                        if let syn::TypeParamBound::Trait(b) = b {
+                            if let (Some(inner), Some(outer)) = (b.lifetimes.take(), &mut p.lifetimes) {
+                                outer.lifetimes.extend(inner.lifetimes);
+                            }
+                        }
+                    }
+                } else {
+                    // `Self` only inside bounds: each such bound gets the binder (or has it added to its own)
+                    for b in &mut p.bounds {
+                        if let syn::TypeParamBound::Trait(b) = b {
+                            let mut v = ContainsSelf(false);
+                            v.visit_trait_bound(b);
+                            if v.0 {
+                                add_lifetime(&mut b.lifetimes);
+                            }
+                        }
+                    }
                 }
             }
         }
